@@ -21,8 +21,10 @@ func main() {
 	rules := flag.String("rules", "", "")
 	thorough := flag.Bool("thorough", false, "")
 	nopoison := flag.Bool("nopoison", false, "released buffers go straight back to the pool (no poison, no quarantine)")
+	bypass := flag.Bool("bypass", false, "buffer pool instrumentation off altogether (no registry lock: requests run in parallel as in production)")
 	flag.Parse()
 	pool.VerifPassThrough.Store(*nopoison)
+	pool.VerifBypass.Store(*bypass)
 	workdir = *dir
 	os.MkdirAll(workdir, 0o755)
 	seed = vtrace.Seed()
